@@ -9,6 +9,7 @@ CONSTANTS
   Pts = {2}
   Layouts = {2}
   AnchorKinds = {"x"}
+  Ancs = {0, 1}
   Deviation = "none"
 INVARIANT TypeOK
 INVARIANT WrittenOnce
